@@ -41,6 +41,10 @@ type Config struct {
 	MaxSteps      int           // scheduler step cap (default 200000)
 	ExploreTimers bool          // offer "advance the clock now" as an alternative
 	Trace         bool          // record the full transition trace
+	// FreeRun: library gates are pass-through and every enabled environment gate is released
+	// at once, so goroutines really run concurrently (used by the separate -race guard pass;
+	// not an exploration mode).
+	FreeRun bool
 }
 
 // Point is one decision point of an execution.
@@ -145,6 +149,9 @@ func (s *Sched) Release() { s.Exit() }
 
 func (s *Sched) Gate(op *shim.Op) int {
 	if s.draining.Load() {
+		return -1
+	}
+	if s.cfg.FreeRun && op.Kind != shim.OpEnv {
 		return -1
 	}
 	g := s.cur()
@@ -614,6 +621,12 @@ func (s *Sched) loop() {
 				return
 			}
 			s.advance(wakeAt)
+			continue
+		}
+		if s.cfg.FreeRun {
+			for _, tr := range en {
+				s.release(tr.g, tr.k)
+			}
 			continue
 		}
 		idx := s.choose(en)
